@@ -9,7 +9,10 @@ CFG = dict(
          "TxHeader.Alh(), a real ahtree, proofs assembled as ImmuStore.DualProof assembles them). Per history: the "
          "header list through the model's history checker (wf_histb: ids, PrevAlh chain from sha256(''), BlRoot = "
          "reference tree over the Alh values), Alh of headers, LinearProof terms (inner hashes), Eh = tree over entry "
-         "digests, TxEntryDigest/EntrySpecDigest, Tx.Proof(key); for sampled pairs i<=j (incl. i=j, j=last): honest "
+         "digests, TxEntryDigest/EntrySpecDigest, Tx.Proof(key) (terms compared with the honest proof the completeness "
+         "theorem is about: CEntryGen), for small histories ImmuStore.DualProof / the harness' mirror over lagging "
+         "histories compared part by part with gen_dual_proof (CDualGen: inclusion, last inclusion, TargetBlTxAlh, linear "
+         "and linear-advance parts); for sampled pairs i<=j (incl. i=j, j=last): honest "
          "DualProof / DualProofV2 / LinearProof / LinearAdvanceProof through the Go verifiers and the model "
          "(completeness: must be accepted), then the adversarial stream: each of ~135 single alterations (every header "
          "field of source and target with and without recomputed Alh argument, +-1 on ids, Version 2, NEntries+65536, "
@@ -17,7 +20,9 @@ CFG = dict(
          "ids and terms; linear advance proof terms and inclusion proofs; swapped ids / hashes / headers; nil proof / "
          "headers / parts) and sampled 2-3 field combinations, recorded as groups of <= 30 edits of a base call (a "
          "sample also as flat cases); alterations of linear proofs and of entry inclusion proofs (Leaf, Width, terms, "
-         "digest, Eh); the forged sessions of coq/Proofs/Refuted.v on the real verifiers; the real pkg/client code "
+         "digest, Eh); the forged sessions of coq/Proofs/Refuted.v on the real verifiers (families A: closed by d34d669, B: "
+         "lagging headers, C: short inclusion proof, D: over-long inclusion proofs with VerifyDualProof and "
+         "VerifyDualProofV2); the real pkg/client code "
          "(VerifiedGet, VerifiedGetAt, VerifiedGet of a reference, VerifiedTxByID, VerifiedSet, VerifiedSetReference, "
          "VerifiedZAdd) driven offline through a mocked ServiceClient that answers from real pkg/database.DB instances and "
          "signs states like pkg/server: the genuine database A (the client's locally stored state is always a state of A, "
@@ -42,8 +47,10 @@ CFG = dict(
         "modelled (transliterated): TxHeader.innerHash/Alh (versions 0/1, truncating casts, panic on other versions), "
         "leafFor, advanceLinearHash, VerifyLinearProof, VerifyLinearAdvanceProof, VerifyDualProof, VerifyDualProofV2, "
         "EntrySpecDigest_v0/_v1, TxEntryDigest_v1_1/_v1_2, store.VerifyInclusion; the Merkle verifiers and their "
-        "soundness come from C08 (coq/Merkle). NOT modelled (tie / reading only): proof GENERATION inside ImmuStore "
-        "(completeness is checked by the run, not proved), the pkg/client and pkg/verification flows (which side is "
+        "soundness / inclusion completeness come from C08 (coq/Merkle). The honest proofs of Proofs/Gen.v (what the "
+        "completeness theorems are about) are compared with the store's on every run; NOT modelled: the generator of "
+        "consistency proofs (completeness of dual proofs is relative to its output being accepted; checked by the "
+        "run), the AHtree digest log, the pkg/client and pkg/verification flows (which side is "
         "trusted is reflected in the theorem statements and in Proofs/Session.v; the client code itself is exercised "
         "offline by the harness with the database as oracle), pkg/database assembly, protobuf conversions, the state "
         "signature (ECDSA)",
@@ -52,7 +59,10 @@ CFG = dict(
         "Go values the model cannot represent are not generated: negative Version / NEntries, TxMetadata with an extra "
         "attribute longer than 256 bytes (the Go type refuses it)",
     ],
-    assumptions=["proof terms and digests are 32-byte values (Go type [sha256.Size]byte)",
+    assumptions=["completeness of VerifyDualProof / VerifyDualProofV2 is relative to the consistency terms being accepted "
+                 "by ahtree.VerifyConsistency; client_step (Proofs/Session.v) models the source/target selection and state "
+                 "advance of VerifiedTxByID / verifiedGet only (no signature, no returned-Tx comparison)",
+                 "proof terms and digests are 32-byte values (Go type [sha256.Size]byte)",
                  "headers inside proofs satisfy hdr_valid (Go field ranges, Version in {0,1}, NEntries < 2^16 in version 0 "
                  "/ < 2^32 in version 1): outside it Alh does not bind NEntries (known finding)"],
 )
